@@ -4,7 +4,7 @@ CONSTANTS
   Namespaces = @NAMESPACES@
   NameMenu <- @NAMEMENU@
   UnionMenu <- MCUnionMenu
-  FuncNames = {"get", "set"}
+  FuncNames = @FUNCNAMES@
   FieldNames <- @FIELDNAMES@
   Kinds <- @KINDS@
   MaskBits = @MASKBITS@
